@@ -15,7 +15,7 @@ import random
 import re
 import signal
 import time
-from typing import Dict, List, Optional, Tuple
+from typing import List, Optional, Tuple
 
 from . import _run, c04, qenum, rfcvalid
 
